@@ -1,12 +1,44 @@
 """C11 ordered set (bst.c)."""
-from vf.runner import Job, fl
+from vf.runner import Job
 
 L0_SRC = ["Lib/utils/mem.c"]
 NATIVE = {"sources": L0_SRC}
 
-META = {}
+META = {
+    "functions": ["bst.c: all (m_bst_new/insert/remove/find/iterate/traverse/itr_new/itr_next/itr_remove/itr_get_data/"
+                  "clear/free/len, insert_node, remove_node, find_min_subtree, bst_find, bst_next, traverse_*, ptrcmp)"],
+    "stubs": ["libmodule_logger = empty variadic", "memhook = {malloc, calloc, free}"],
+    "bounds": "step: EVERY binary-tree shape of n <= N nodes (N=3 quick: 9 shapes, N=4 thorough: 23 shapes; one job per "
+              "shape, from 3 nodes on per shape x operation group), arbitrary elements satisfying the search-tree "
+              "order, one operation (insert / remove / traverse any order with stop / iterate / iterator walk removing "
+              "any subset of positions / clear / free / none) + observation suffix; after insert / remove the suffix "
+              "checks the parent links directly instead of walking the iterator (thorough: also the iterator walk, for "
+              "n = 3).  script: every operation script of length L from empty (L=3 quick, L=4 thorough) over the "
+              "order-isomorphism classes of the arguments (equal to j-th key via same / other pointer, or inside gap g) "
+              "- narrower than the planned L=4/5-6 with symbolic keys, which does not finish (one 3-insert sequence "
+              "with symbolic keys and one iterator walk = 197 s).  ptrcmp: any three pointers less than 2^54 bytes "
+              "apart inside one object",
+    "outside": "trees of more than N nodes in the pre-state of a step (after an insert the suffix sees N+1), scripts "
+               "longer than L, pointers 2^54 bytes or more apart, allocation failure, callbacks that modify the set, "
+               "use of an iterator across other modifications of the set",
+    "assumptions": ["pre-state of the step harness = representation invariant of bst.c (tree shape, parent links, "
+                    "search-tree order, len); every step re-establishes it (in-order == model, parent links, len), "
+                    "the n=0 job starts from m_bst_new's own state, the script jobs reach their states through the API",
+                    "comparator behaviour depends only on the relative order of the elements (the script harness "
+                    "quantifies over relative orders with concrete keys; the step harness over arbitrary elements)",
+                    "--no-signed-overflow-check: CBMC 6.11 reports 'arithmetic overflow on signed -' for ANY pointer "
+                    "difference p - q with p < q inside one object (spurious, does not reproduce); bst.c has no other "
+                    "signed arithmetic, the int truncation in ptrcmp is caught by --conversion-check and by the "
+                    "harness assertions",
+                    "function pointers: l->comp in {vf_cmp, ptrcmp}, l->dtor in {vf_dtor}, cb in {vf_cb} (CBMC keeps an "
+                    "assertion per site that the pointer is one of these)"],
+}
 
-B = lambda s: fl(s, "bst.c")          # static functions of bst.c are #included into the harness TU
+PARALLEL = {"quick": 6, "thorough": 8}
+
+# bst.c is #included into the harness TU; the harness is compiled WITHOUT --export-file-local-symbols so that the
+# static functions of bst.c keep their plain names (loop ids, recursion ids and function-pointer targets below)
+B = lambda s: s
 
 FLAGS = ["--no-signed-overflow-check"]
 FP = [(r"\.comp$", ["vf_cmp", B("ptrcmp")]), (r"\.dtor$", ["vf_dtor"]), (r"::cb$", ["vf_cb"])]
@@ -67,7 +99,7 @@ def step_jobs(k, par, side, code, tier, suffix_itr=False):
             d["VF_SUFFIX_ITR"] = 1
         js.append(Job("C11.step.n%d.%s.%s" % (k, code, gname), "l0/bst_step.c", sources=L0_SRC,
                       extra_harness=["common/vf_defs.c"], defines=d,
-                      unwind=max(4 * k + 4, 10, 2 ** k + 2), unwindset=lib_bounds(k + 1), fp=FP, flags=FLAGS,
+                      unwind=max(4 * k + 4, 10, 2 ** k + 2), unwindset=lib_bounds(k + 1), fp=FP, flags=FLAGS, export_local=False,
                       symbolic=["element of every node", "op", "argument element", "comparator installed",
                                 "dtor installed", "traversal order/stop position/callback result",
                                 "iterator removal mask", "key of suffix find"],
@@ -84,7 +116,7 @@ def script_job(L, cmpf, tier, split=None):
         name += ".part%dof%d" % (split[1] + 1, split[0])
     ne = 2 ** (L + 2)
     return Job(name, "l0/bst_script.c", sources=L0_SRC, extra_harness=["common/vf_defs.c"], defines=d,
-               unwind=ne + 2, unwindset=lib_bounds(L), fp=FP, flags=FLAGS, fsa=max(ne, 64), object_bits=16,
+               unwind=ne + 2, unwindset=lib_bounds(L), fp=FP, flags=FLAGS, export_local=False, fsa=max(ne, 64), object_bits=16,
                symbolic=["op[0..L)", "relative position of the argument of every step (equal to j-th / twin / gap g)",
                          "iterator removal masks", "dtor installed"],
                bounds="L=%d" % L, native=NATIVE, timeout=300 if tier == "quick" else 1500)
@@ -93,11 +125,11 @@ def script_job(L, cmpf, tier, split=None):
 def ptrcmp_jobs(tier):
     sym = ["offset of pointer a", "offset of pointer b", "offset of pointer c (each < 2^54)"]
     js = [Job("C11.ptrcmp.contract", "l0/bst_ptrcmp.c", sources=L0_SRC, extra_harness=["common/vf_defs.c"],
-              defines={"VF_PART": 1}, unwind=4, unwindset=lib_bounds(2), fp=FP, flags=FLAGS, symbolic=sym,
+              defines={"VF_PART": 1}, unwind=4, unwindset=lib_bounds(2), fp=FP, flags=FLAGS, export_local=False, symbolic=sym,
               bounds="any three pointers less than 2^54 bytes apart", native=NATIVE, timeout=300)]
     if tier != "quick":      # the same through insert/find/traverse: 6.7 M SAT variables (2^54-byte object), ~130 s
         js.append(Job("C11.ptrcmp.api", "l0/bst_ptrcmp.c", sources=L0_SRC, extra_harness=["common/vf_defs.c"],
-                      defines={"VF_PART": 2}, unwind=4, unwindset=lib_bounds(2), fp=FP, flags=FLAGS, symbolic=sym[:2],
+                      defines={"VF_PART": 2}, unwind=4, unwindset=lib_bounds(2), fp=FP, flags=FLAGS, export_local=False, symbolic=sym[:2],
                       bounds="any two pointers less than 2^54 bytes apart", native=NATIVE, timeout=900))
     return js
 
@@ -120,4 +152,7 @@ def jobs(tier):
     return js
 
 
-MANIFEST = {"text": "", "note": ""}
+MANIFEST = {
+    "text": 'Bounded model checking of all of Lib/structs/bst.c: inductive step from an arbitrary valid search tree of every shape with <= N nodes (elements symbolic, user and default comparator, with/without destructor) through one operation - insert, remove, traversal in any order with callback stop, iterate, iterator walk removing any subset of positions, clear, free - followed by an observation suffix against a sorted-array model (length, in-order, pre/post-order rebuilt into one search tree, find of a symbolic key, iterator or parent links, per-element destructor counts); all operation scripts of length <= L from empty over all relative orders of the arguments; default comparator contract (sign, equality, antisymmetry, transitivity) for pointers at any distance < 2^54',
+    "note": 'tree shape is enumerated (one CBMC job per shape), elements/arguments/options are solver variables; scripts enumerate order-isomorphism classes by symbolic execution (keys concrete per path); pre-states above N nodes and scripts above L are outside the claim; after insert/remove the iterator is replaced by a direct parent-link check in the quick tier',
+}
